@@ -146,7 +146,9 @@ func (l *Lexer) Split() []*Token {
 			next = 0
 		}
 		switch char {
-		case ' ':
+		case ' ', '\t', '\n', '\v', '\f', '\r':
+			// Every blank character separates words (the same set that
+			// buildToken would trim off a word)
 			if strStart {
 				tokLen++
 				break
@@ -224,20 +226,15 @@ func (l *Lexer) Split() []*Token {
 			tokLen = 0
 			var token *Token = nil
 
-			if next != '=' {
-				switch char {
-				case '!', '*', '+', '-', '/':
-					token = &Token{
-						Tp:   OPERATOR,
-						Data: string(char),
-						Pos:  i,
-					}
-				case '>', '<':
-					token = &Token{
-						Tp:   OPERATOR,
-						Data: string(char),
-						Pos:  i,
-					}
+			// `~ ^ ! < >` directly followed by `=` start a two-character
+			// operator, which is emitted when the `=` is reached. Every other
+			// operator character is a token of its own (`*=` is `*` and `=`)
+			twoCharStart := char == '~' || char == '^' || char == '!' || char == '<' || char == '>'
+			if char != '=' && !(twoCharStart && next == '=') {
+				token = &Token{
+					Tp:   OPERATOR,
+					Data: string(char),
+					Pos:  i,
 				}
 			}
 			if token != nil {
